@@ -84,6 +84,17 @@ func (r *coreRun) limitedLoad(name string, n int, viaMaxHistory bool) ([]int, er
 		if !eqInts(l, out) {
 			return nil, fmt.Errorf("List(-1) %v differs from the log listing %v after a limited load", l, out)
 		}
+		// the same instance then loads without a limit: everything is there
+		if n > 0 && !viaMaxHistory && len(out) > 0 && r.bid[len(r.bid)-1]%2 == 0 {
+			if err := ref.S.Load(ctx, -1); err != nil {
+				return nil, fmt.Errorf("unlimited load after a limited one: %w", err)
+			}
+			r.res.Stats["limited_then_full"]++
+			if got := ref.S.OpLog().Len(); got != len(full) {
+				return nil, fmt.Errorf("after Load(%d) and then Load(-1) on the same instance the log holds %d of %d entries", n, got, len(full))
+			}
+			return out, nil
+		}
 		// the same instance writes once more and loads with the same limit again: the window moves with the log
 		if n > 0 && !viaMaxHistory && len(out) > 0 {
 			op, err := ref.S.(orbitdb.EventLogStore).Add(ctx, []byte("after-limited-load"))
